@@ -9,12 +9,14 @@ wt=/tmp/seedwt_$name
 rm -rf $wt; git -C /repo worktree add -q $wt HEAD || exit 9
 res() { echo "$1"; }
 cd $wt
-cp $src/demo_test.go zz_demo_test.go
-t=$(grep -o "func Test[A-Za-z0-9_]*" zz_demo_test.go | head -1 | sed 's/func //')
-without=$(go test -vet=off -count=1 -run "^$t\$" . 2>&1 | tail -1)
+pkg=$(grep -m1 -o "^package [a-z_]*" $src/demo_test.go | sed 's/package //')
+pdir=.; [ "$pkg" != "ice" ] && pdir=./internal/$pkg
+cp $src/demo_test.go $pdir/zz_demo_test.go
+t=$(grep -o "func Test[A-Za-z0-9_]*" $pdir/zz_demo_test.go | head -1 | sed 's/func //')
+without=$(go test -vet=off -count=1 -run "^$t\$" $pdir 2>&1 | tail -1)
 git apply $src/patch.diff || { echo "PATCH DOES NOT APPLY"; git -C /repo worktree remove --force $wt; exit 8; }
-with=$(go test -vet=off -count=1 -run "^$t\$" . 2>&1 | tail -1)
-rm zz_demo_test.go
+with=$(go test -vet=off -count=1 -run "^$t\$" $pdir 2>&1 | tail -1)
+rm $pdir/zz_demo_test.go
 suite=$(go test -vet=off -count=1 ./... 2>&1 | grep -E "^(ok|FAIL|---)" | grep -v "^ok" | head -5)
 if [ -n "$suite" ]; then suite2=$(go test -vet=off -count=1 ./... 2>&1 | grep -E "^(FAIL|--- FAIL)" | head -5); else suite2=""; fi
 echo "demo without: $without"; echo "demo with: $with"; echo "suite(with) failures: ${suite2:-none}"
